@@ -33,6 +33,9 @@ def run_cli(case):
             VALS["C"] = case["comment_val"]
         if case.get("source_val"):
             VALS["S"] = case["source_val"]
+        if case.get("url_suffix"):
+            for k in ("A", "W", "H"):
+                VALS[k] = [u + case["url_suffix"] for u in VALS[k]]
         na = case.get("n_announce", 2)
         ann = VALS["A"][:na]
         want = {"announce": [hexs(x) for x in ann], "urllist": [hexs(x) for x in VALS["W"]],
